@@ -16,7 +16,7 @@
    ..._partial are full statements about the handlers (all states) whose step case is not yet part of the trace proof. *)
 From Coq Require Import List NArith ZArith Bool.
 Import ListNotations.
-Require Import Base.Wire Base.PyStr C10.Model C10.Lemmas C10.Handlers C10.SrvLemmas C10.Feed C10.Inv C10.Sim C10.Agree C10.Step C10.Keys C10.Trace C10.Boundary.
+Require Import Base.Wire Base.PyStr C10.Model C10.Lemmas C10.Handlers C10.SrvLemmas C10.Feed C10.Inv C10.Sim C10.Agree C10.Step C10.Keys C10.Trace C10.Boundary C10.StepLate.
 
 (* ---- refutations of the simulation: concrete conformant histories outside [dom] after which the bot model
         disagrees with the server (replayed on the implementation: findings F10, F10b, F10c) ---- *)
@@ -235,3 +235,20 @@ Proof.
   intros. apply two_networks; try assumption; try apply Inv_start; try apply skeys_start; assumption.
 Qed.
 Print Assumptions C10_two_networks.
+
+(* ---- replies in flight.  The bot asks NAMES / MODE / MODE +b / WHO when it joins; if it parts or is kicked before the
+        answers arrive (or the answers are about a channel it never was on) none of 353, 324, 329, 367 makes it track the
+        channel: "when the bot itself leaves or is kicked the channel disappears from its view" -- and stays away.
+        (Before the repair C10.F11, do353 / do324 / do329 re-created the channel record: a ghost channel.)  The action
+        ALate of the reference server delivers such replies; it is inside [dom], so C10_simulation_trace covers it. ---- *)
+Theorem C10_late_replies_ignored :
+  forall p a ch b, idict_has ch (b_chans b) = false ->
+  (forall ty items, st_do353 (Msg p str_353 [a; ty; ch; items]) b = b)
+  /\ (forall rest, st_do324 (Msg p str_324 (a :: ch :: rest)) b = b)
+  /\ (forall rest, st_do329 (Msg p str_329 (a :: ch :: rest)) b = b)
+  /\ (forall rest, st_do367 (Msg p str_367 (a :: ch :: rest)) b = b).
+Proof.
+  intros p a ch b H. repeat split; intros.
+  - apply late_353; exact H. - apply late_324; exact H. - apply late_329; exact H. - apply late_367; exact H.
+Qed.
+Print Assumptions C10_late_replies_ignored.
